@@ -333,3 +333,117 @@ func checkReplayChain(c *Ctx, res *report.Result, rule string) {
 		}
 	}
 }
+
+// checkIntraStreamTables (O9.14): the intra-proxy stream tables are maintained on every path: RegisterSender files
+// the sender under (peer, stream key) - creating and filing the peer's state when there is none - for every
+// cross-cluster pair; UnregisterSender removes exactly that entry when it is still its own; ensureStream files the
+// new receiver and its shutdown handle before it starts it, and starts it as a goroutine. The senders found in
+// these tables are the only way a message or an ack reaches another instance (O9.13 is the decision to look there).
+func checkIntraStreamTables(c *Ctx, res *report.Result, rule string) {
+	mapStore := func(fieldSuffix string) func(ssa.Instruction) bool {
+		return func(x ssa.Instruction) bool {
+			mu, ok := x.(*ssa.MapUpdate)
+			if !ok {
+				return false
+			}
+			if p, okp := flow.FieldPath(mu.Map); okp && strings.HasSuffix(p, fieldSuffix) {
+				return true
+			}
+			_, fld, okf := flow.FieldLoadOf(mu.Map)
+			return okf && "."+fld == fieldSuffix
+		}
+	}
+	mapDelete := func(fieldSuffix string) func(ssa.Instruction) bool {
+		return func(x ssa.Instruction) bool {
+			call, ok := x.(ssa.CallInstruction)
+			if !ok {
+				return false
+			}
+			bi, isB := call.Common().Value.(*ssa.Builtin)
+			if !isB || bi.Name() != "delete" {
+				return false
+			}
+			if p, okp := flow.FieldPath(call.Common().Args[0]); okp && strings.HasSuffix(p, fieldSuffix) {
+				return true
+			}
+			_, fld, okf := flow.FieldLoadOf(call.Common().Args[0])
+			return okf && "."+fld == fieldSuffix
+		}
+	}
+	sameClusterEdge := func(a, b *ssa.BasicBlock) bool {
+		for _, g := range flow.NormGuards(flow.EdgeGuards(a, b)) {
+			bo, ok := g.Cond.(*ssa.BinOp)
+			if !ok {
+				continue
+			}
+			px, _ := flow.FieldPath(bo.X)
+			py, _ := flow.FieldPath(bo.Y)
+			if strings.HasSuffix(px, "ClusterID") && strings.HasSuffix(py, "ClusterID") && ((bo.Op == token.EQL && g.Side) || (bo.Op == token.NEQ && !g.Side)) {
+				return true
+			}
+		}
+		return false
+	}
+	lost := "messages and acks for a shard owned by the peer find no stream to travel on and are retried for ever"
+	if f := resolve(c, res, rule, anchor{"proxy", "*intraProxyManager", "RegisterSender"}); f != nil {
+		r := flow.FindPath(flow.Point{Block: f.Blocks[0]}, flow.IsReturn, mapStore(".senders"), func(a, b *ssa.BasicBlock) bool { return !sameClusterEdge(a, b) })
+		res.Check(!r.Found, rule, "RegisterSender files the sender under its stream key for every cross-cluster pair", fnPos(c.Prog, f), "every path but the same-cluster one passes senders[key] = sender", "a sender can be registered without being filed (path "+flow.BlockPath(r.Via)+"): "+lost)
+		// the value filed is the sender parameter, under a key built from the two shard parameters
+		for _, b := range f.Blocks {
+			for _, ins := range b.Instrs {
+				if mu, ok := ins.(*ssa.MapUpdate); ok && mapStore(".senders")(mu) {
+					_, isParam := mu.Value.(*ssa.Parameter)
+					res.Check(isParam, rule, "RegisterSender files the sender it was given", instrPos(c.Prog, mu), "senders[key] = sender (parameter)", "something other than the registering sender is filed")
+				}
+			}
+		}
+		// a peer state created here is filed: from the allocation of a peerState no return avoids peers[peer] = ps
+		for _, b := range f.Blocks {
+			for _, ins := range b.Instrs {
+				if al, ok := ins.(*ssa.Alloc); ok && flow.NamedIs(al.Type(), proxyPkg, "peerState") {
+					r2 := flow.FindPath(flow.After(al), flow.IsReturn, mapStore(".peers"), nil)
+					res.Check(!r2.Found, rule, "RegisterSender files a peer state it creates", instrPos(c.Prog, al), "peers[peer] = ps follows the allocation on every path", "a freshly created peer state is never put into the peer table (path "+flow.BlockPath(r2.Via)+"): the sender is filed in an object nobody can find - "+lost)
+				}
+			}
+		}
+	}
+	if f := resolve(c, res, rule, anchor{"proxy", "*intraProxyManager", "UnregisterSender"}); f != nil {
+		n := 0
+		for _, b := range f.Blocks {
+			for _, ins := range b.Instrs {
+				if mapDelete(".senders")(ins) {
+					n++
+				}
+			}
+		}
+		res.Check(n == 1, rule, "UnregisterSender removes the sender's entry", fnPos(c.Prog, f), "one delete(ps.senders, key)", fmt.Sprintf("%d deletes from the sender table: an ended stream's sender stays filed and everything forwarded to the peer is written to a dead stream", n))
+	}
+	if f := resolve(c, res, rule, anchor{"proxy", "*intraProxyManager", "ensureStream"}); f != nil {
+		var gos []*ssa.Go
+		for _, b := range f.Blocks {
+			for _, ins := range b.Instrs {
+				if g, ok := ins.(*ssa.Go); ok {
+					gos = append(gos, g)
+				}
+			}
+		}
+		// the receiver literal
+		for _, b := range f.Blocks {
+			for _, ins := range b.Instrs {
+				al, ok := ins.(*ssa.Alloc)
+				if !ok || !flow.NamedIs(al.Type(), proxyPkg, "intraProxyStreamReceiver") {
+					continue
+				}
+				r := flow.FindPath(flow.After(al), flow.IsReturn, mapStore(".receivers"), func(a, b2 *ssa.BasicBlock) bool { return true })
+				res.Check(!r.Found, rule, "ensureStream files the receiver it creates", instrPos(c.Prog, al), "receivers[key] = recv on every path to a return", "a receiver can be created without being filed (path "+flow.BlockPath(r.Via)+"): the next ack for that pair creates another stream, and the peer's streams are never closed when it leaves")
+				started := false
+				for _, g := range gos {
+					if flow.InstrDominates(al, g) {
+						started = true
+					}
+				}
+				res.Check(started, rule, "ensureStream starts the receiver as a goroutine", instrPos(c.Prog, al), "go func() { recv.Run(...) }()", "the receiver is not started in a goroutine of its own: ensureStream (called under the caller's delivery path) would not return while the stream lives")
+			}
+		}
+	}
+}
